@@ -121,12 +121,17 @@ theorem zeroRttRejected_no_local {s s' : State} (h : s.zeroRttRejected = some s'
 
 /-! ### retransmit_all_for_0rtt -/
 
-/-- one direction of `retransmit_all_for_0rtt`: every stream in the range that has data or a FIN to
-    (re)send ends up with nothing marked as sent -/
+/-- what `retransmit_all_for_0rtt` leaves behind for a stream: every byte that is not acknowledged is
+    scheduled again from offset 0 (or nothing is outstanding), and the FIN of a finished stream whose
+    FIN is not acknowledged is queued again -/
+def Resent (x : Send) : Prop :=
+  ((x.pending.isFullyAcked && !x.finPending) = false → x.pending.unsent = 0) ∧
+  (x.state = .dataSent false → x.finPending = true)
+
+/-- one direction of `retransmit_all_for_0rtt`: every stream in the range ends up `Resent` -/
 theorem rtx0Loop_unsent (dir : Dir) : ∀ (n : Nat) {s s' : State} {i : Nat},
     s.rtx0Loop dir n i = some s' →
-    (∀ j x', i ≤ j → j < i + n → s'.send.find? (sidNew .client dir j) = some (some x') →
-      (x'.pending.isFullyAcked && !x'.finPending) = false → x'.pending.unsent = 0) ∧
+    (∀ j x', i ≤ j → j < i + n → s'.send.find? (sidNew .client dir j) = some (some x') → Resent x') ∧
     (∀ k x', (∀ j, i ≤ j → j < i + n → k ≠ sidNew .client dir j) →
       s'.send.find? k = some (some x') → s.send.find? k = some (some x')) := by
   intro n
@@ -141,22 +146,20 @@ theorem rtx0Loop_unsent (dir : Dir) : ∀ (n : Nat) {s s' : State} {i : Nat},
     dsimp only at h
     -- what the step did to the map
     have key : ∀ (s1 : State), s1.rtx0Loop dir n (i + 1) = some s' →
-        (∀ x1, s1.send.find? (sidNew .client dir i) = some (some x1) →
-          (x1.pending.isFullyAcked && !x1.finPending) = false → x1.pending.unsent = 0) →
+        (∀ x1, s1.send.find? (sidNew .client dir i) = some (some x1) → Resent x1) →
         (∀ k x1, k ≠ sidNew .client dir i → s1.send.find? k = some (some x1) → s.send.find? k = some (some x1)) →
-        (∀ j x', i ≤ j → j < i + (n + 1) → s'.send.find? (sidNew .client dir j) = some (some x') →
-          (x'.pending.isFullyAcked && !x'.finPending) = false → x'.pending.unsent = 0) ∧
+        (∀ j x', i ≤ j → j < i + (n + 1) → s'.send.find? (sidNew .client dir j) = some (some x') → Resent x') ∧
         (∀ k x', (∀ j, i ≤ j → j < i + (n + 1) → k ≠ sidNew .client dir j) →
           s'.send.find? k = some (some x') → s.send.find? k = some (some x')) := by
       intro s1 hrec hcur hoth
       obtain ⟨h1, h2⟩ := ih hrec
       constructor
-      · intro j x' hj1 hj2 hf hna
+      · intro j x' hj1 hj2 hf
         by_cases hji : j = i
         · subst hji
           have := h2 _ x' (fun j' hj1' _ hc => by have := (sidNew_inj hc).2.2; omega) hf
-          exact hcur x' this hna
-        · exact h1 j x' (by omega) (by omega) hf hna
+          exact hcur x' this
+        · exact h1 j x' (by omega) (by omega) hf
       · intro k x' hk hf
         have := h2 k x' (fun j hj1 hj2 => hk j (by omega) (by omega)) hf
         exact hoth k x' (hk i (Nat.le_refl _) (by omega)) this
@@ -165,34 +168,42 @@ theorem rtx0Loop_unsent (dir : Dir) : ∀ (n : Nat) {s s' : State} {i : Nat},
       split at h
       · rename_i hskip
         refine key s h ?_ (fun k x1 _ hk => hk)
-        intro x1 hx1 hna
+        intro x1 hx1
         rw [hx] at hx1; simp only [Option.some.injEq] at hx1; subst hx1
-        rw [hskip] at hna; contradiction
+        -- skipped: fully acknowledged, no FIN pending, and not a finished stream with an unacknowledged FIN
+        simp only [Bool.and_eq_true, Bool.not_eq_eq_eq_not, Bool.not_true] at hskip
+        refine ⟨fun hna => by simp [hskip.1.1, hskip.1.2] at hna, fun hst => ?_⟩
+        have : x.rtx0Finished = true := by unfold Send.rtx0Finished; simp [Gen.rtx0RequeuesFin, hst]
+        rw [this] at hskip; exact absurd hskip.2 (by simp)
       · split at h
         · contradiction
         · rename_i p hp
           refine key _ h ?_ ?_
-          · intro x1 hx1 _
+          · intro x1 hx1
             simp only [State.putSend] at hx1
             rw [Map.find?_set_self _ _ _ _ hx] at hx1
             simp only [Option.some.injEq] at hx1; subst hx1
-            unfold SendBuf.retransmitAllFor0rtt at hp
-            split at hp
-            · simp only [Option.some.injEq] at hp; rw [← hp]
-            · contradiction
+            refine ⟨fun _ => ?_, fun hst => ?_⟩
+            · unfold SendBuf.retransmitAllFor0rtt at hp
+              split at hp
+              · simp only [Option.some.injEq] at hp; rw [← hp]
+              · contradiction
+            · have : x.rtx0Finished = true := by
+                unfold Send.rtx0Finished; simp only [Gen.rtx0RequeuesFin, Bool.true_and]; simpa using hst
+              simp [this]
           · intro k x1 hk hf
             simp only [State.putSend] at hf
             rw [Map.find?_set_ne _ _ _ _ hk] at hf; exact hf
     · rename_i hnone
       refine key s h ?_ (fun k x1 _ hk => hk)
-      intro x1 hx1 _
+      intro x1 hx1
       exact absurd hx1 (hnone x1)
 
-/-- after `retransmit_all_for_0rtt` every stream the client opened that has unacknowledged data or a
-    pending FIN has nothing marked as sent: all of it will be transmitted again -/
-theorem rtx0_nothing_unsent {s s' : State} (h : s.retransmitAllFor0rtt = some s') (d : Dir) (j : Nat)
-    (hj : j < s.next.get d) (x' : Send) (hf : s'.send.find? (sidNew .client d j) = some (some x'))
-    (hna : (x'.pending.isFullyAcked && !x'.finPending) = false) : x'.pending.unsent = 0 := by
+/-- after `retransmit_all_for_0rtt` every stream the client opened is `Resent`: all unacknowledged
+    data is scheduled again from offset 0 and the FIN of every finished stream is queued again -/
+theorem rtx0_resent {s s' : State} (h : s.retransmitAllFor0rtt = some s') (d : Dir) (j : Nat)
+    (hj : j < s.next.get d) (x' : Send) (hf : s'.send.find? (sidNew .client d j) = some (some x')) :
+    Resent x' := by
   unfold State.retransmitAllFor0rtt at h
   osplit h
   have h1 := ‹State.rtx0Loop s Dir.bi _ _ = some _›
@@ -203,11 +214,16 @@ theorem rtx0_nothing_unsent {s s' : State} (h : s.retransmitAllFor0rtt = some s'
     have := (frame_rtx0Loop _ _ h1).v.core
     exact congrArg Core.next this
   cases d with
-  | uni => exact a2 j x' (Nat.zero_le _) (by rw [hnext]; omega) hf hna
+  | uni => exact a2 j x' (Nat.zero_le _) (by rw [hnext]; omega) hf
   | bi =>
     -- the second loop does not touch bidirectional ids
     have hf1 := b2 _ x' (fun j' _ _ hc => by have := (sidNew_inj hc).2.1; contradiction) hf
-    exact a1 j x' (Nat.zero_le _) (by omega) hf1 hna
+    exact a1 j x' (Nat.zero_le _) (by omega) hf1
+
+theorem rtx0_nothing_unsent {s s' : State} (h : s.retransmitAllFor0rtt = some s') (d : Dir) (j : Nat)
+    (hj : j < s.next.get d) (x' : Send) (hf : s'.send.find? (sidNew .client d j) = some (some x'))
+    (hna : (x'.pending.isFullyAcked && !x'.finPending) = false) : x'.pending.unsent = 0 :=
+  (rtx0_resent h d j hj x' hf).1 hna
 
 /-! ### the sender-visible projection -/
 
